@@ -186,6 +186,18 @@ int main(void) {
 		if (!strcmp(op, "b64enc")) rc = base64_encode(in, n, out, (size_t)cap, &rep);
 		else if (!strcmp(op, "b64dec")) rc = base64_decode(in, n, out, (size_t)cap, &rep);
 		else if (!strcmp(op, "b64decfmt")) rc = base64_decode_fmt(in, n, out, (size_t)cap, &rep);
+		else if (!strcmp(op, "b64dec2") || !strcmp(op, "b64decfmt2") || !strcmp(op, "b64enc2")) {
+			/* the two-step use: ask for the size with no room at all, then work in a block of exactly that size */
+			size_t need = (size_t)-1;
+			int rq = !strcmp(op, "b64dec2") ? base64_decode(in, n, out, 0, &need) :
+			    (!strcmp(op, "b64decfmt2") ? base64_decode_fmt(in, n, out, 0, &need) : base64_encode(in, n, out, 0, &need));
+			if (need == (size_t)-1 || need > (1u << 20)) { rc = 1000 + rq; rep = need; }
+			else {
+				cap = (long)need; out = out_alloc((size_t)cap);
+				rc = !strcmp(op, "b64dec2") ? base64_decode(in, n, out, need, &rep) :
+				    (!strcmp(op, "b64decfmt2") ? base64_decode_fmt(in, n, out, need, &rep) : base64_encode(in, n, out, need, &rep));
+			}
+		}
 		else if (!strcmp(op, "b64encopy")) rc = base64_en_copy(in, out, n, &rep);
 		else if (!strcmp(op, "bin2hex")) rc = cvt_bin2hex(in, n, 1, out, (size_t)cap, &rep);
 		else if (!strcmp(op, "hex2bin")) rc = cvt_hex2bin(in, n, 0, out, (size_t)cap, &rep);
